@@ -125,8 +125,10 @@ func builtinStringLastIndexOf(call FunctionCall) Value {
 		return intValue(lastIndexRune(value, target))
 	}
 	start := call.ArgumentList[1].number()
-	if start.kind == numberInfinity { // FIXME
-		// startNumber is infinity, so start is the end of string (start = length)
+	if start.kind == numberNaN || (start.kind == numberInfinity && start.int64 > 0) {
+		// 15.5.4.8 steps 4-5: a position that is NaN counts as +Infinity,
+		// and from +Infinity the search starts at the end of the string
+		// (-Infinity is clamped to 0 below).
 		return intValue(lastIndexRune(value, target))
 	}
 	if 0 > start.int64 {
